@@ -156,12 +156,19 @@ QueryEndReason(rec) ==
 StateEquiv(a, b) ==
   /\ a.u.trail = b.u.trail
   /\ (Flag("trail_only") \/ (TreeStoreEquiv(a, b) /\ a.ds = b.ds))
+(* C07 / C09: every branch label has appeared need[label] times before the budget ran out *)
+NeedReasons(rec) ==
+  IF "need" \notin DOMAIN cur THEN {}
+  ELSE LET HasL(js, b) == \E i \in 1..Len(js.u.trail) : js.u.trail[i] = b
+           CountL(b) == Cardinality({i \in 1..Len(got) : HasL(got[i], b)})
+       IN One(IF \A b \in DOMAIN cur.need : CountL(b) >= cur.need[b] THEN "" ELSE "unfair_starvation")
+
 SolverEndReason(rec) ==
   IF rec.kind = "toolerr" THEN {"tool_error"}
   ELSE IF rec.kind = "panic" THEN {"panic"}
-  ELSE IF rec.kind = "budget" THEN {"budget_exhausted"}
+  ELSE IF rec.kind = "budget" THEN {"budget_exhausted"} \cup NeedReasons(rec)
   ELSE
-  IF Flag("noref") THEN {}
+  IF Flag("noref") THEN NeedReasons(rec) \cup One(IF \A i \in 1..Len(rec.after) : rec.after[i] THEN "" ELSE "not_fused")
   ELSE
   LET spec == Eval(cur.goal, InitK(0), Fuel, DefsOf(cur))
       impl == [i \in 1..Len(got) |-> StoreOfJson(got[i])]
